@@ -37,10 +37,11 @@ KINDS = {
     'x[e={v} a=b]': dict(name='x', attrs=[('e', ('expr', 'v')), ('a', 'b')]),
     'x{l1\nl2 ${1:f} l3}': dict(name='x', text=['l1', 'l2 f l3']),
     'x{l1 ${1:g}\nl2${0}}': dict(name='x', text=['l1 g', 'l2']),
+    'x{l1\n\nl3}': dict(name='x', text=['l1', '', 'l3']),          # an empty text line is a line
     'x.k1.k2.k3.k4.k5.k6.k7.k8.k9.k10.k11': dict(name='x', cls=['k%d' % i for i in range(1, 12)]),
 }
 SMALL = ['x', '.c', 'x#i.c[a=b d]', 'x{l1\nl2}', 'br/', 'div[a=b]']
-MID = ['x', '.c', '#i', 'x#i.c[a=b d]', 'x{t}', 'x{l1\nl2}', 'br/', 'div[a=b]', 'x[hidden=until a=b]', 'x[e={v} a=b]', 'x{l1\nl2 ${1:f} l3}']
+MID = ['x', '.c', 'x#i.c[a=b d]', 'x{l1\nl2}', 'br/', 'x[hidden=until a=b]', 'x[e={v} a=b]', 'x{l1\nl2 ${1:f} l3}', 'x{l1\n\nl3}']
 TINY = ['x', '.c', 'x{l1\nl2}', 'br/']
 SYNTAXES = ['haml', 'pug', 'slim']
 INDENTS = ['\t', '  ', '    ']
@@ -170,6 +171,15 @@ def check(seq, labels, syntax, indent):
     exp = expected_lines(tree, syntax, indent)
     if got != exp:
         bad.append((classify(exp, got, indent), dict(abbr=abbr, syntax=syntax, indent=indent, expected=exp[:12], got=got[:12])))
+    if indent != INDENTS[0]:
+        return abbr, bad           # the option-independence, tree-reuse and HTML-tree clauses are checked under the first indent string
+    # line breaks and indentation are the structure of these syntaxes: switching output.format off changes nothing
+    try:
+        out2 = expand(abbr, {'syntax': syntax, 'options': {'output.indent': indent, 'inlineElements': [], 'output.format': False}})
+        if out2 != out:
+            bad.append(('lines:differ-with-output.format-off', dict(abbr=abbr, syntax=syntax, formatted=out[:200], unformatted=out2[:200])))
+    except Exception as e:
+        bad.append(('exception-format-off:%s' % type(e).__name__, str(e)[:120]))
     # formatting must not consume the parsed tree: the same tree formatted twice (and as HTML afterwards) gives the same text
     try:
         cfg = Config({'syntax': syntax, 'options': {'output.indent': indent, 'inlineElements': []}})
